@@ -20,10 +20,10 @@ func init() {
 		Rule: "real engines and real replication.Manager instances on loopback TCP. Scenario matrix = workload class {single puts/deletes <= 100, > 100 entries, multi-key transactions " +
 			"(also >= 100 operations), explicit flush/log rotation on the primary, large values} x join time {before, during, after the writes} x replica event {none, clean restart on the " +
 			"same directory, link cut and restore through a controllable TCP proxy} x 1-2 replicas. Convergence is restated as bounded progress: after the primary stops writing and the link " +
-			"is up, a full scan of every replica must equal the primary's within 60s (normal: 1-5s) and still be equal 2s later. A timeout is a violation whose witness holds both scans' first " +
+			"is up, a full scan of every replica must become equal to the primary's - the wait ends when the replica's contents have not changed for 60s (normal convergence: 1-30s; the stock replica fetches ~100 entries per second; hard cap 10 min) - and still be equal 2s later. A stall is a violation whose witness holds both scans' first " +
 			"difference and the replica's status; each scenario class has its own verdict. distinct = hash(scenario parameters); non-trivial = the primary wrote >= 1 transaction or > 100 " +
 			"entries or rotated its log, and the replica really received entries over the network",
-		Assumptions: []string{"bounded liveness: the 60s bound is >= 10x the normal convergence time on loopback; exceeding it is reported as a violation with the witness, not proven divergence"},
+		Assumptions: []string{"bounded liveness: 60s without any change of the replica's contents is >= 10x the interval between two catch-up batches; it is reported as a violation with the witness, not proven divergence"},
 		NumCases: func(tier string) int {
 			if tier == "thorough" {
 				return 240
@@ -138,14 +138,24 @@ func firstDiff(a, b []kv.KVPair) string {
 }
 
 // waitConverged polls until the replica's scan equals the primary's (the primary is quiescent).
+// The bound is on *progress*, not on total time: as long as the replica's contents keep changing the
+// wait continues (the stock replica fetches about 100 entries per second); it gives up when nothing
+// has changed for `bound`, or after 10 minutes in total.
 func waitConverged(p, r *engine.EngineFacade, bound time.Duration) (time.Duration, string) {
 	t0 := time.Now()
 	want := scanAll(p)
 	d := ""
-	for time.Since(t0) < bound {
-		d = firstDiff(want, scanAll(r))
+	lastChange := time.Now()
+	lastSig := ""
+	for time.Since(lastChange) < bound && time.Since(t0) < 10*time.Minute {
+		got := scanAll(r)
+		d = firstDiff(want, got)
 		if d == "" {
 			return time.Since(t0), ""
+		}
+		sig := fmt.Sprint(len(got), d)
+		if sig != lastSig {
+			lastSig, lastChange = sig, time.Now()
 		}
 		time.Sleep(50 * time.Millisecond)
 	}
@@ -308,7 +318,7 @@ func runC14(c *core.Ctx, res *core.Result) {
 					fmt.Fprintf(&sb, "%s=%v ", k, v)
 				}
 			}
-			res.Violate("replica_did_not_converge", fmt.Sprintf("%s: replica %d did not reach the primary's state within 60s after the primary stopped writing (%d log entries, %d transactions, rotated=%v): %s\nreplica status: %s",
+			res.Violate("replica_did_not_converge", fmt.Sprintf("%s: replica %d did not reach the primary's state: no progress for 60s after the primary stopped writing (%d log entries, %d transactions, rotated=%v): %s\nreplica status: %s",
 				desc, i, entries, txs, rotated, diff, sb.String()), feat)
 			return
 		}
